@@ -50,6 +50,7 @@ type stats struct {
 	Imports, Go, Send, Recv, Close, RangeChan, Select   int
 	MapRange, MapRangeUnordered, TimeNow, Sleep, OsExit int
 	StmtYields                                          int
+	Consts                                              int
 	Unordered                                           []string
 	Packages                                            []string
 }
@@ -62,6 +63,7 @@ func main() {
 	out := flag.String("out", "", "output directory")
 	tags := flag.String("tags", "verif", "build tags")
 	stmtYield := flag.String("stmtyield", "", "comma separated repo-relative files that get a yield before every statement")
+	setConst := flag.String("setconst", "", "comma separated file:name=value: replace the value of a package level constant (a tuning knob)")
 	flag.Parse()
 	if *out == "" || flag.NArg() == 0 {
 		fmt.Fprintln(os.Stderr, "usage: instr -out dir [-repo /repo] pkg...")
@@ -93,6 +95,23 @@ func main() {
 		if f != "" {
 			stmtFiles[filepath.Join(*repo, f)] = true
 		}
+	}
+
+	constFiles := map[string]map[string]string{}
+	for _, f := range strings.Split(*setConst, ",") {
+		if f == "" {
+			continue
+		}
+		file, rest, ok1 := strings.Cut(f, ":")
+		name, val, ok2 := strings.Cut(rest, "=")
+		if !ok1 || !ok2 {
+			die(fmt.Errorf("bad -setconst %q", f))
+		}
+		file = filepath.Join(*repo, file)
+		if constFiles[file] == nil {
+			constFiles[file] = map[string]string{}
+		}
+		constFiles[file][name] = val
 	}
 
 	cfg := &packages.Config{
@@ -144,7 +163,7 @@ func main() {
 				continue
 			}
 			st.Files++
-			r := &rewriter{pkg: p, file: f, fset: p.Fset, info: p.TypesInfo, fname: name, stmtYield: stmtFiles[name]}
+			r := &rewriter{pkg: p, file: f, fset: p.Fset, info: p.TypesInfo, fname: name, stmtYield: stmtFiles[name], setConst: constFiles[name]}
 			if !r.rewrite() {
 				continue
 			}
@@ -218,6 +237,7 @@ type rewriter struct {
 	needSim   bool
 	usedTime  bool
 	stmtYield bool
+	setConst  map[string]string
 	tmp       int
 }
 
@@ -362,6 +382,26 @@ func (r *rewriter) rewrite() bool {
 
 	if r.stmtYield {
 		r.insertStmtYields()
+	}
+	for _, d := range r.file.Decls {
+		gd, ok := d.(*ast.GenDecl)
+		if !ok || gd.Tok != token.CONST {
+			continue
+		}
+		for _, sp := range gd.Specs {
+			vs := sp.(*ast.ValueSpec)
+			for i, n := range vs.Names {
+				if v, ok := r.setConst[n.Name]; ok && i < len(vs.Values) {
+					vs.Values[i] = &ast.BasicLit{Kind: token.INT, Value: v}
+					delete(r.setConst, n.Name)
+					st.Consts++
+					r.changed = true
+				}
+			}
+		}
+	}
+	for n := range r.setConst {
+		errs = append(errs, r.fname+": constant "+n+" not found")
 	}
 	if !r.changed {
 		return false
